@@ -31,18 +31,26 @@ type EntryImpl struct {
 
 // newEntry constructor for Entries
 func newEntry(ctx context.Context, parent Entry, pathElemName string, tc *TreeContext) (*EntryImpl, error) {
+	newEntry, err := newEntryDetached(ctx, parent, pathElemName, tc)
+	if err != nil {
+		return nil, err
+	}
+	// add the Entry as a child to the parent Entry
+	err = parent.addChild(ctx, newEntry)
+	return newEntry, err
+}
+
+// newEntryDetached creates the Entry without adding it as a child to the parent, that is up to the caller
+func newEntryDetached(ctx context.Context, parent Entry, pathElemName string, tc *TreeContext) (*EntryImpl, error) {
 	// create a new sharedEntryAttributes instance
 	sea, err := newSharedEntryAttributes(ctx, parent, pathElemName, tc)
 	if err != nil {
 		return nil, err
 	}
 
-	newEntry := &EntryImpl{
+	return &EntryImpl{
 		sharedEntryAttributes: sea,
-	}
-	// add the Entry as a child to the parent Entry
-	err = parent.addChild(ctx, newEntry)
-	return newEntry, err
+	}, nil
 }
 
 // Entry is the primary Element of the Tree.
